@@ -103,7 +103,7 @@ Print Assumptions C03_clone.
 
 (* The empty sets and NewSetFromSlice / NewSetFromKeys / NewSetFromValues of
    either package (i : impl) hold exactly the given values. *)
-Theorem C03_constructors : ∀ (i : impl),
+Theorem C03_constructors : ∀ (i : AnySet.impl),
   (wf_set (new_set i) ∧ abs (new_set i) = ∅) ∧
   (∀ l, ∃ a, new_from i (ms_NewSetFromSlice l) (ss_NewSetFromSlice l) = Ok a ∧ wf_set a ∧ abs a = list_to_set l) ∧
   (∀ m, ∃ a, new_from i (ms_NewSetFromKeys m) (ss_NewSetFromKeys m) = Ok a ∧ wf_set a ∧ abs a = list_to_set (map fst m)) ∧
@@ -156,7 +156,7 @@ Print Assumptions C03_go_orders_cover.
    an expunged entry. *)
 Definition C03_example_ops : list op :=
   [ONew IS; OAdd 0 1; OAdd 0 2; OAdd 0 3; OLen 0 [3;1;2]; ORemove 0 2; ORemove 0 3; OAdd 0 4; OAdd 0 2;
-   OFromSlice IM [2;5;5]; OBin BSymDiff 0 1 [4;3;2;1] [5;2]; OBin BIntersect 1 0 [2;5] [];
+   OFromSlice IM [2;5;5]; OBin BSymDiff 0 1 [4;3;2;1] [5;2]; OBin BIntersect 1 0 [2;5] [1;4;2];
    OSlice 2 [5;4;1;0]; OAddSet 1 0 [2;1;4;3]; OCartesian 3 1 [2] (λ _, [5;4;2;1]); ORange 1 [1;2;4;5] 3; OString 0 [4;2;1]].
 Example C03_example :
   all_orders_ok [] C03_example_ops ∧
@@ -173,4 +173,4 @@ Example C03_example :
       end
   | _ => False
   end.
-Proof. split; [apply bool_decide_unpack; vm_compute; reflexivity|]. vm_compute. repeat split. Qed.
+Proof. split; [apply (bool_decide_unpack _); vm_compute; exact I|]. vm_compute. repeat split. Qed.
